@@ -735,7 +735,14 @@ def path_keeps_every_part(ctx):
     ctx.ob(pth is None, u, 'every part adds a step on every path through the loop body',
            '' if pth is None else 'a path returns to the loop head without adding a step: that part is silently dropped',
            witness=fmt_witness(cfg, pth))
-    ctx.ob(isinstance(lp.iter, ast.Subscript) and isinstance(lp.iter.slice, ast.Slice) and lp.iter.slice.upper is None
-           and lp.iter.slice.step is None and is_name(lp.iter.value, u.vararg), u,
-           'the loop visits every part after the optional leading T: %s' % norm(lp.iter))
+    # the iterated value is the argument tuple or a tail slice of it (directly or through a local)
+    its = [lp.iter]
+    if is_name(lp.iter) and lp.iter.id != u.vararg:
+        its = [v for _, v in cfg.reaching_defs(ln, lp.iter.id) if not (isinstance(v, ast.AST) and ln in cfg.node_containing(v).loop_stack)] \
+            if hasattr(cfg, 'node_containing') else [v for _, v in cfg.reaching_defs(ln, lp.iter.id)]
+    def tail(e):
+        return is_name(e, u.vararg) or (isinstance(e, ast.Subscript) and isinstance(e.slice, ast.Slice) and e.slice.upper is None
+                                        and e.slice.step is None and is_name(e.value, u.vararg))
+    ctx.ob(bool(its) and all(isinstance(e, ast.AST) and tail(e) for e in its), u,
+           'the loop visits every part after the optional leading T: %s' % [norm(e) if isinstance(e, ast.AST) else e for e in its])
     ctx.floor(3)
